@@ -41,7 +41,8 @@ MANIFEST = {
     "`generic_visit_rejects` ties the nodeRejected disposition to the two generic_visit methods; `value_statements_recorded`: every value-bearing "
     "statement is appended to its basic block, an expression statement being dropped only when its value is a %tmp variable. The extractor is cross-checked on every "
     "run by ~90 probe programs compiled and lowered by the real compiler (accepted probe with Hugr identical to the clause-free base = failing input).",
-    "level_note": "The quantifier is finite (grammar table), so `decide` is a complete proof about the extracted table; trusted: the extractor's "
+    "level_note": "PARTIAL w.r.t. the sentence: proves 'looked at by every consumer or rejected', not 'takes effect as in Python' (only sampled by the "
+    "clause-vs-base Hugr comparison); granularity (kind, field). The quantifier is finite (grammar table), so `decide` is a complete proof about the extracted table; trusted: the extractor's "
     "notion of 'read' (syntactic attribute load on a variable typed by annotations/visit_K naming/ASDL chains), the pipeline shape in "
     "Model/C32Coverage.lean (CFGBuilder then StmtChecker; ExprBuilder/BranchBuilder then ExprSynthesizer | ExprChecker), CPython's ast docstrings.",
     "technique": "Lean 4 decide over tables regenerated from source (T-src) + dynamic probe cross-check through the real check+lowering",
